@@ -1,6 +1,6 @@
 import UvModel.Lemmas.LoopTrace
 import UvModel.Lemmas.LoopRunInv
-import UvModel.Lemmas.LoopClose2
+import UvModel.Lemmas.LoopClose3
 /-!
   C02 — close protocol, over the LoopModel.  `tr s = (s.trace, s.ncbTotal)`: the event trace
   (callbacks, polls, op results) and the number of callbacks run so far.
@@ -145,10 +145,76 @@ def reqs_before_close_cb_statement : Prop :=
     ∃ pre post a b st, (runClosing sc s).trace = post ++ [Event.cb .closing .close id a b] ++ pre ∧
       Event.cb .closing .udpSend r st 0 ∈ pre
 
+/-- the statement as first written: "no event carries the id of a handle whose flags record is gone" -/
 def silence_after_close_cb_statement : Prop :=
   ∀ (sc : Script) (fuel : Nat) (s : State) (prog : List MainOp) (id : Nat), SInv s → getF s id = none → id < s.nextId →
     ∀ e ∈ ((runMain sc fuel s prog).trace.take ((runMain sc fuel s prog).trace.length - s.trace.length)),
       ∀ ph k a b, e ≠ Event.cb ph k id a b
+
+/-- … is false of the model (and meaningless for the code): request callbacks carry *request* ids, which live in
+    another namespace than handle ids.  Reachable witness: handle 2 is closed and its close callback delivered; then
+    three `uv_queue_work` requests 0, 1, 2 complete: the event `cb poll work 2` mentions the number 2. -/
+theorem silence_after_close_cb_statement_false : ¬ silence_after_close_cb_statement := by
+  intro h
+  let sc : Script := fun _ _ _ => []
+  let orc : List PollRes := [{ clock := 0 }, { clock := 0, done := 3, batch := [(Owner.async, 1)] }]
+  let s1 : State := runMain sc 5 (initLoop 0 false orc) [.op (.init .idle), .op (.close 2), .run .nowait]
+  let prog2 : List MainOp := [.op .work, .op .work, .op .work, .run .nowait]
+  have hs : SInv s1 := runMain_inv _ _ _ _ (sInv_initLoop _ _ _)
+  have h2 := h sc 5 s1 prog2 2 hs (by decide) (by decide)
+  have hall : (((runMain sc 5 s1 prog2).trace.take ((runMain sc 5 s1 prog2).trace.length - s1.trace.length)).all
+      (fun e => match e with | .cb _ _ i _ _ => i != 2 | _ => true)) = true := by
+    rw [List.all_eq_true]
+    intro e he
+    cases e with
+    | cb ph k i a b =>
+      by_cases hi : i = 2
+      · subst hi; exact absurd rfl (h2 _ he ph k a b)
+      · simp [hi]
+    | _ => rfl
+  revert hall
+  decide
+
+/-- `silence_after_close_cb`: once the record of handle `id` has been unlinked — which `uv__finish_close` does
+    right before the close callback (`gone_after_close_cb`) — no program, script or poller behaviour makes the loop
+    emit a *handle* callback (timer, idle, prepare, check, async, poll, close) for `id` again: every callback site
+    looks the record up (`Option`), the lookup fails closed, and ids are never reused.  (Events of kind
+    work / udpSend / connect carry request ids.) -/
+theorem silence_after_close_cb (sc : Script) (fuel : Nat) (s : State) (prog : List MainOp) (id : Nat)
+    (hg : getH s id = none) (hn : id < s.nextId) :
+    ∀ e ∈ ((runMain sc fuel s prog).trace.take ((runMain sc fuel s prog).trace.length - s.trace.length)),
+      ∀ ph k a b, e = Event.cb ph k id a b → k = .work ∨ k = .udpSend ∨ k = .connect := by
+  obtain ⟨_, new, he, hp⟩ := SilRel.runMain id sc fuel prog s ⟨(getH_none_iff s id).mp hg, hn⟩
+  rw [he, List.take_left' (by simp)]
+  exact hp
+
+/-- … and the record stays deleted: no later step of any program re-creates a record with that id -/
+theorem gone_forever (sc : Script) (fuel : Nat) (s : State) (prog : List MainOp) (id : Nat)
+    (hg : getH s id = none) (hn : id < s.nextId) : getH (runMain sc fuel s prog) id = none :=
+  (getH_none_iff _ id).mpr (SilRel.runMain id sc fuel prog s ⟨(getH_none_iff s id).mp hg, hn⟩).1.1
+
+/-- `uv__finish_close` of a queued handle (any kind, with or without attached requests) ends with the record
+    deleted; the close callback itself — whatever it does — cannot bring it back -/
+theorem gone_after_close_cb (sc : Script) (s : State) (id : Nat) (rest : List Nat) (hw : CloseWF s)
+    (hl : s.closingLocal = id :: rest) (hn : id < s.nextId) :
+    getH (finishClose sc id { s with closingLocal := rest }) id = none ∧
+    id < (finishClose sc id { s with closingLocal := rest }).nextId := by
+  have hw1 : CloseWF' (some id) { s with closingLocal := rest } := by
+    have hl' : clList (some id) { s with closingLocal := rest } = clList none s := by simp [clList, hl]
+    exact ⟨hl' ▸ hw.1, fun i hi => hw.2 i (hl' ▸ hi)⟩
+  have := finishClose_gone sc id _ hw1 hn
+  exact ⟨(getH_none_iff _ id).mpr this.1, this.2⟩
+
+/-- the witness above read with the corrected statement: after the close callback of handle 2 the only later
+    callbacks are the three work completions -/
+example :
+    let sc : Script := fun _ _ _ => []
+    let orc : List PollRes := [{ clock := 0 }, { clock := 0, done := 3, batch := [(Owner.async, 1)] }]
+    let s1 : State := runMain sc 5 (initLoop 0 false orc) [.op (.init .idle), .op (.close 2), .run .nowait]
+    let s2 := runMain sc 5 s1 [.op .work, .op .work, .op .work, .run .nowait]
+    getH s1 2 = none ∧ 2 < s1.nextId ∧
+    (s2.trace.reverse.filterMap (fun e => match e with | .cb _ k i _ _ => some (k, i) | _ => none)) =
+      [(CbKind.close, 2), (CbKind.work, 0), (CbKind.work, 1), (CbKind.work, 2)] := by decide
 
 /-- udp: queued sends are failed with UV_ECANCELED (-125), sends already handed to the kernel keep their
     status, all before the close callback (`uv__udp_finish_close` runs inside `uv__finish_close`, before
